@@ -1038,10 +1038,11 @@ func (p *Processor) IncomingSpanBatch(batch SpanBatch) {
 // ProcessorHarvest's Type to HarvestFinal, later functions avoid goroutines
 // so that we only return from this function when all harvests complete
 func (p *Processor) CleanExit() {
-	// Terminate p.Run()'s loop and stop receiving data
+	// Terminate p.Run()'s loop. From here on nothing receives from the
+	// incoming data channels any more. The channels themselves are left
+	// alone: the listener's connection goroutines are still reading these
+	// fields, so setting them to nil here would be a data race.
 	p.quitChan <- struct{}{}
-	p.txnDataChannel = nil
-	p.appInfoChannel = nil
 
 	// Harvest all remaining data
 	for id, ah := range p.harvests {
